@@ -109,6 +109,206 @@ fn place(m: Option<(u32, u32)>, decom: bool, cols: u32, cy: u32, cx: u32) -> Opt
     Some(v)
 }
 
+/// The STATE ZOO: unusual but reachable states, each as (columns, lines, ops that reach it).  Every
+/// property's own operations are tried from every one of them (`zoo_sessions`).
+fn state_zoo() -> Vec<(u32, u32, Vec<Op>)> {
+    let a = api;
+    let cup = |l: u32, c: u32| api(Call::CursorPosition(Some(l), Some(c)));
+    let dr = |t: &str| api(Call::Draw(t.to_string()));
+    let smp = |v: &[u32]| api(Call::SetMode(v.to_vec(), true));
+    let rmp = |v: &[u32]| api(Call::ResetMode(v.to_vec(), true));
+    let mut z: Vec<(u32, u32, Vec<Op>)> = vec![];
+    // reverse video with cells and a cursor rendition that are NOT reverse
+    z.push((8, 4, vec![cup(2, 1), dr("abc"), smp(&[5]), a(Call::Sgr(vec![27])), cup(1, 1), dr("xy"), cup(2, 2)]));
+    // a rendition saved before DECSCNM comes back after it
+    z.push((8, 4, vec![a(Call::Sgr(vec![1, 34])), a(Call::SaveCursor), smp(&[5]), a(Call::RestoreCursor), cup(3, 3), dr("k")]));
+    // region with top > 0, origin mode, cursor in the region / pending wrap on its bottom margin
+    z.push((6, 6, vec![a(Call::SetMargins(Some(2), Some(4))), smp(&[6]), cup(2, 3), dr("m")]));
+    z.push((4, 6, vec![cup(6, 1), dr("stat"), a(Call::SetMargins(Some(2), Some(4))), cup(4, 1), dr("wxyz")]));
+    // cursor below / above the region (origin mode off)
+    z.push((6, 6, vec![a(Call::SetMargins(Some(2), Some(4))), cup(6, 2), dr("st")]));
+    z.push((6, 6, vec![a(Call::SetMargins(Some(3), Some(5))), cup(1, 4)]));
+    // origin mode without a region (a resize dropped it)
+    z.push((6, 5, vec![a(Call::SetMargins(Some(2), Some(4))), smp(&[6]), a(Call::Resize(Some(6), None)), cup(2, 2)]));
+    // double-width characters: cursor on the placeholder, lead in the last column, lead overwritten
+    z.push((6, 3, vec![dr("a\u{4e2d}b\u{4e2d}"), cup(1, 3)]));
+    z.push((5, 3, vec![rmp(&[7]), cup(1, 5), dr("\u{4e2d}"), smp(&[7]), cup(1, 5)]));
+    z.push((6, 3, vec![dr("\u{4e2d}\u{4e2d}"), cup(1, 1), dr("x"), cup(1, 2)]));
+    // a symbol with a variation selector, a combining sequence, a mark on a never-written cell
+    z.push((6, 3, vec![dr("\u{263a}\u{fe0f}ab"), cup(2, 3), dr("\u{301}"), cup(1, 2)]));
+    // insert mode, autowrap, new-line mode in every combination at pending wrap over a filled next row
+    for (irm, awm, lnm) in [(true, true, false), (true, false, false), (false, true, true), (true, true, true)] {
+        let mut v = vec![cup(2, 1), dr("XYZ"), cup(1, 1)];
+        if irm { v.push(a(Call::SetMode(vec![4], false))); }
+        if !awm { v.push(rmp(&[7])); }
+        if lnm { v.push(a(Call::SetMode(vec![20], false))); }
+        v.push(dr("abcde"));
+        z.push((5, 3, v));
+    }
+    // 8-bit mode with G1 (graphics) shifted in / G0 designated graphics
+    z.push((8, 3, vec![Op::Utf8(false), Op::Feed("\x0e".into()), dr("lqk")]));
+    z.push((8, 3, vec![Op::Utf8(false), Op::Feed("\x1b(0".into()), dr("x")]));
+    // shifted out in 8-bit mode, then the embedder switches to UTF-8 (and back)
+    z.push((8, 3, vec![Op::Utf8(false), Op::Feed("\x0e".into()), Op::Utf8(true)]));
+    z.push((8, 3, vec![Op::Utf8(false), Op::Feed("\x0e".into()), Op::Utf8(true), Op::Utf8(false)]));
+    // deep saved-cursor stacks (16, 17, 40) with a charset / rendition change after the newest save
+    for d in [16u32, 17, 40] {
+        let mut v = vec![];
+        for i in 0..d { v.push(cup(i % 3 + 1, i % 5 + 1)); v.push(a(Call::SaveCursor)); }
+        v.push(a(Call::DefineCharset("0".into(), "(".into())));
+        v.push(a(Call::ShiftOut));
+        v.push(a(Call::Sgr(vec![4, 33])));
+        z.push((8, 4, v));
+    }
+    // DECCOLM: set from 40 columns, set twice, set then RIS, native 132, set then an embedder resize
+    z.push((40, 3, vec![smp(&[3]), cup(1, 41), dr("far")]));
+    z.push((40, 3, vec![smp(&[3]), smp(&[3])]));
+    z.push((40, 3, vec![smp(&[3]), a(Call::Reset)]));
+    z.push((132, 3, vec![dr("native")]));
+    z.push((40, 3, vec![smp(&[3]), a(Call::Resize(None, Some(100)))]));
+    // tab stops: default one cleared and another added at column 0 / at the pending-wrap column / beyond a narrowed screen
+    z.push((20, 2, vec![a(Call::CursorToColumn(Some(9))), a(Call::ClearTabStop(Some(0))), a(Call::CursorToColumn(Some(1))), a(Call::SetTabStop)]));
+    z.push((16, 2, vec![a(Call::CursorToColumn(Some(9))), a(Call::ClearTabStop(Some(0))), cup(1, 16), dr("w"), a(Call::SetTabStop), cup(1, 1)]));
+    z.push((40, 2, vec![a(Call::CursorToColumn(Some(35))), a(Call::SetTabStop), a(Call::Tab), a(Call::Resize(None, Some(20))), cup(1, 1)]));
+    z.push((20, 2, vec![a(Call::Tab), a(Call::Resize(None, Some(40))), cup(1, 22)]));
+    // hidden cursor / DECTCEM out of step, title set, dirty set cleared, display() called
+    z.push((6, 3, vec![a(Call::SaveCursor), rmp(&[25]), a(Call::RestoreCursor), a(Call::SetTitle("t".into()))]));
+    z.push((6, 3, vec![dr("abc"), a(Call::ClearDirty), a(Call::Display), cup(2, 2)]));
+    // 1x1 and 1-column screens with a pending wrap and autowrap off
+    z.push((1, 1, vec![dr("a")]));
+    z.push((1, 3, vec![rmp(&[7]), dr("a")]));
+    // an aborted / skipped CSI with pending digits right before (state of the recogniser, not of the screen)
+    z.push((8, 3, vec![Op::Feed("\x1b[12$p".into())]));
+    z.push((8, 3, vec![Op::Feed("\x1b[?2026\x18".into())]));
+    z
+}
+
+/// the operations a property owns, with their corner parameters
+fn own_cands(prop: &str, cols: u32, lines: u32, r: &mut Rng) -> Vec<Call> {
+    let mut c = vec![];
+    match prop {
+        "C04" => {
+            for t in ["x", "\u{4e2d}", "xy", "\u{301}", "x\u{301}", "\u{263a}\u{fe0f}", "q~", "\u{200b}", "abcdefgh"] {
+                c.push(Call::Draw(t.to_string()));
+            }
+        }
+        "C05" => {
+            for p in param_set(lines.max(cols)) {
+                c.extend([Call::CursorUp(p), Call::CursorDown(p), Call::CursorForward(p), Call::CursorBack(p), Call::CursorDown1(p),
+                          Call::CursorUp1(p), Call::CursorToColumn(p), Call::CursorToLine(p)]);
+                for q in [None, Some(0), Some(1), Some(cols), Some(cols + 1), Some(9999)] {
+                    c.push(Call::CursorPosition(p, q));
+                }
+            }
+            c.extend([Call::Backspace, Call::CarriageReturn]);
+        }
+        "C06" => {
+            c.extend([Call::Index, Call::ReverseIndex, Call::Linefeed, Call::Draw("x".into()), Call::Draw("\u{4e2d}".into())]);
+            for p in param_set(lines) {
+                c.push(Call::InsertLines(p));
+                c.push(Call::DeleteLines(p));
+            }
+            for a in [None, Some(0), Some(1), Some(2), Some(lines), Some(9999)] {
+                for b in [None, Some(0), Some(2), Some(lines - 1), Some(lines), Some(9999)] {
+                    c.push(Call::SetMargins(a, b));
+                }
+            }
+        }
+        "C07" => {
+            for h in [None, Some(0), Some(1), Some(2), Some(3), Some(4), Some(9999)] {
+                c.push(Call::EraseInDisplay(h));
+                c.push(Call::EraseInLine(h));
+            }
+            for p in param_set(cols) {
+                c.push(Call::EraseCharacters(p));
+            }
+        }
+        "C08" => {
+            for code in [0u32, 1, 3, 4, 5, 7, 9, 22, 23, 24, 25, 27, 29, 31, 39, 44, 49, 91, 102] {
+                c.push(Call::Sgr(vec![code]));
+            }
+            c.extend([Call::Sgr(vec![]), Call::Sgr(vec![38, 5, 196]), Call::Sgr(vec![48, 2, 1, 2, 3]), Call::Sgr(vec![38, 5, 256]), Call::Sgr(vec![0, 1, 38, 1])]);
+        }
+        "C10" => c.push(Call::Display),
+        "C12" => {
+            for n in [3u32, 4, 5, 6, 7, 20, 25] {
+                for p in [false, true] {
+                    c.push(Call::SetMode(vec![n], p));
+                    c.push(Call::ResetMode(vec![n], p));
+                }
+            }
+        }
+        "C13" => {
+            for p in param_set(cols) {
+                c.push(Call::InsertCharacters(p));
+                c.push(Call::DeleteCharacters(p));
+            }
+        }
+        "C14" => c.extend([Call::SaveCursor, Call::RestoreCursor]),
+        "C15" => c.push(Call::Reset),
+        "C16" => {
+            for l in [None, Some(1), Some(lines.saturating_sub(1).max(1)), Some(lines), Some(lines + 2)] {
+                for k in [None, Some(1), Some(cols.saturating_sub(1).max(1)), Some(cols), Some(cols + 3), Some(cols / 2 + 1)] {
+                    c.push(Call::Resize(l, k));
+                }
+            }
+        }
+        "C18" => {
+            c.extend([Call::Tab, Call::SetTabStop, Call::Reset]);
+            for h in [None, Some(0), Some(3), Some(2)] {
+                c.push(Call::ClearTabStop(h));
+            }
+        }
+        "C19" => {
+            c.extend([Call::SetTitle("title q~".into()), Call::SetIconName("icon".into()), Call::SetTitle("".into())]);
+        }
+        "C20" => {
+            c.extend([Call::ShiftOut, Call::ShiftIn, Call::Draw("q~a".into()), Call::SaveCursor, Call::RestoreCursor, Call::Reset,
+                      Call::Resize(Some(lines.saturating_sub(1).max(1)), None), Call::Resize(None, Some(cols + 1))]);
+            for code in ["B", "0", "U", "V", "K"] {
+                for m in ["(", ")"] {
+                    c.push(Call::DefineCharset(code.into(), m.into()));
+                }
+            }
+        }
+        _ => {
+            for fam in ["draw", "move", "erase", "scroll", "ichdch", "sgr", "mode", "tabs", "save", "margins", "charset", "misc", "resize"] {
+                for _ in 0..3 {
+                    c.push(gen::call(r, cols, lines, fam));
+                }
+            }
+        }
+    }
+    c
+}
+
+/// every operation the property owns, from every state of the zoo; after the operation a probe
+/// (position-revealing text, a tab, the rendering) makes latent state visible
+fn zoo_sessions(prop: &str, tier: &str, r: &mut Rng) -> Vec<Session> {
+    let mut out = vec![];
+    for (i, (cols, lines, prefix)) in state_zoo().into_iter().enumerate() {
+        let cands = own_cands(prop, cols, lines, r);
+        let keep = if tier == "thorough" || cands.len() <= 60 { 1 } else { (cands.len() / 60) as u32 + 1 };
+        let mut ops = vec![Op::Quiet(true)];
+        ops.extend(prefix);
+        ops.push(Op::Snap);
+        ops.push(Op::Quiet(false));
+        for c in &cands {
+            if keep > 1 && r.below(keep) != 0 {
+                continue;
+            }
+            push_cand(r, &mut ops, c);
+            ops.push(api(Call::Draw("q~".into())));
+            ops.push(api(Call::Tab));
+            ops.push(api(Call::Draw("\u{4e2d}".into())));
+            ops.push(api(Call::Display));
+            ops.push(Op::Back);
+        }
+        out.push(sess(format!("{}zoo{}", prop.to_lowercase(), i), cols, lines, ops));
+    }
+    out
+}
+
 /// C05: exhaustive (geometry x margins x DECOM x cursor x op x parameter).
 fn enum_c05(tier: &str, r: &mut Rng) -> Vec<Session> {
     let maxg = counts(tier, 3, 6);
@@ -449,6 +649,45 @@ fn enum_c18(tier: &str, r: &mut Rng) -> Vec<Session> {
         ops.push(api(Call::Reset));
         out.push(sess(format!("c18e{}", w), w, 2, ops));
     }
+    for w in [20u32, 33] {
+        let mut n = 0;
+        for clear in (8..w).step_by(8) {
+            for add in 0..=w {
+                if tier != "thorough" && add % 8 != 0 && add != w && add != w - 1 && add != clear + 1 {
+                    continue;
+                }
+                let mut ops = vec![Op::Quiet(true)];
+                ops.push(api(Call::CursorToColumn(Some(clear + 1))));
+                ops.push(api(Call::ClearTabStop(Some(0))));
+                if add == w {
+                    ops.push(api(Call::CursorToColumn(Some(w))));
+                    ops.push(api(Call::Draw("w".into())));
+                } else {
+                    ops.push(api(Call::CursorToColumn(Some(add + 1))));
+                }
+                ops.push(api(Call::SetTabStop));
+                ops.push(Op::Quiet(false));
+                for x in 0..w {
+                    ops.push(api(Call::CursorToColumn(Some(x + 1))));
+                    ops.push(api(Call::Tab));
+                }
+                n += 1;
+                out.push(sess(format!("c18x{}_{}", w, n), w, 1, ops));
+            }
+        }
+    }
+    for w in [40u32, 20, 80] {
+        let mut ops = vec![api(Call::SetMode(vec![3], true)), api(Call::Reset)];
+        for x in [1u32, w - 7, w, w + 1, w + 8, 100, 125, 131] {
+            ops.push(api(Call::CursorToColumn(Some(x))));
+            ops.push(api(Call::Tab));
+        }
+        ops.push(api(Call::ResetMode(vec![3], true)));
+        ops.push(api(Call::Reset));
+        ops.push(api(Call::CursorToColumn(Some(w - 1))));
+        ops.push(api(Call::Tab));
+        out.push(sess(format!("c18colm{}", w), w, 2, ops));
+    }
     for (i, w) in [4u32, 8, 9, 20, 80].iter().enumerate() {
         for widen in 0..3 {
             let mut ops = vec![api(Call::Tab), api(Call::CursorToColumn(Some(*w))), api(Call::Tab)];
@@ -537,6 +776,25 @@ fn enum_c08(tier: &str, r: &mut Rng) -> Vec<Session> {
     }
     out.push(sess("c08d".into(), 4, 2, ops));
     out
+}
+
+/// C08: "cells drawn afterwards carry exactly that rendition" - also when the same glyph is redrawn in place
+fn enum_c08_redraw() -> Vec<Session> {
+    let mut ops = vec![];
+    for code in [1u32, 3, 4, 5, 7, 9, 31, 44, 91, 102] {
+        for back in [0u32, 22, 23, 24, 25, 27, 29, 39, 49] {
+            ops.push(api(Call::Sgr(vec![0])));
+            ops.push(api(Call::CursorPosition(Some(1), Some(1))));
+            ops.push(api(Call::Draw("x".into())));
+            ops.push(api(Call::Sgr(vec![code])));
+            ops.push(api(Call::CursorPosition(Some(1), Some(1))));
+            ops.push(api(Call::Draw("x".into())));
+            ops.push(api(Call::Sgr(vec![back])));
+            ops.push(api(Call::CursorPosition(Some(1), Some(1))));
+            ops.push(api(Call::Draw("x".into())));
+        }
+    }
+    vec![sess("c08redraw".into(), 3, 1, ops)]
 }
 
 fn enum_c12(tier: &str, r: &mut Rng) -> Vec<Session> {
@@ -1087,7 +1345,7 @@ fn enum_c03(tier: &str, r: &mut Rng) -> Vec<Session> {
 fn enum_c19(tier: &str, r: &mut Rng) -> Vec<Session> {
     let alphabet: Vec<&str> = vec![
         "a", ";", "\\", "]", " ", "\u{e9}", "\x1bq", "\n", "\x1b[", "\u{4e2d}", "0", "\x0e", "e\u{301}", "\u{212b}",
-        "\u{1100}\u{1161}",
+        "\u{1100}\u{1161}", "\x1b\x07", "\x1b\u{9c}", "\x1b\x1b", "q",
     ];
     let maxlen = counts(tier, 2, 4);
     let mut payloads: Vec<String> = vec![String::new()];
@@ -1122,6 +1380,16 @@ fn enum_c19(tier: &str, r: &mut Rng) -> Vec<Session> {
         let code = if r.chance(3, 5) { *r.pick(&["0", "1", "2"]) } else { *r.pick(&codes) };
         let st = format!("{}{};{}{}", intro, code, p, term);
         let mut ops = vec![api(Call::Draw("k".into()))];
+        match i % 7 {
+            // an abandoned CSI with pending digits right before the string
+            3 => ops.push(Op::Feed((*r.pick(&["\x1b[12$p", "\x1b[?2026$p", "\x1b[34\x18", "\x1b[5;6\x1a"])).into())),
+            // 8-bit mode with the graphics set active: the payload is not drawn text, it is not translated
+            5 => {
+                ops.insert(0, Op::Utf8(false));
+                ops.push(Op::Feed((*r.pick(&["\x0e", "\x1b(0", "\x1b)U\x0e"])).into()));
+            }
+            _ => {}
+        }
         if r.chance(1, 3) {
             for ch in gen::split_chars(r, &st) {
                 ops.push(Op::Feed(ch));
@@ -1253,11 +1521,17 @@ pub fn generate(prop: &str, tier: &str, seed: u64) -> Vec<Session> {
         let nops = rr.range(5, 60);
         out.push(gen::session(&mut rr, format!("{}g{}", prop, i), focus, nops, via, bytes));
     }
+    if !matches!(prop, "C02" | "C03" | "C11" | "C17b") {
+        out.extend(zoo_sessions(prop, tier, &mut r));
+    }
     match prop {
         "C05" => out.extend(enum_c05(tier, &mut r)),
         "C06" => out.extend(enum_c06(tier, &mut r)),
         "C07" => out.extend(enum_c07(tier, &mut r)),
-        "C08" => out.extend(enum_c08(tier, &mut r)),
+        "C08" => {
+            out.extend(enum_c08(tier, &mut r));
+            out.extend(enum_c08_redraw());
+        }
         "C12" => out.extend(enum_c12(tier, &mut r)),
         "C13" => out.extend(enum_c13(tier, &mut r)),
         "C14" => out.extend(enum_c14(tier, &mut r)),
@@ -1265,7 +1539,10 @@ pub fn generate(prop: &str, tier: &str, seed: u64) -> Vec<Session> {
         "C18" => out.extend(enum_c18(tier, &mut r)),
         "C20" => out.extend(enum_c20(tier, &mut r)),
         "C15" => out.extend(enum_c15(tier, &mut r)),
-        "C03" => out.extend(enum_c03(tier, &mut r)),
+        "C03" => {
+            out.extend(enum_c03(tier, &mut r));
+            out.extend(enum_c19(tier, &mut r));
+        }
         "C19" => out.extend(enum_c19(tier, &mut r)),
         "C11" => out.extend(enum_c11(tier, &mut r)),
         "C01" => {
